@@ -80,6 +80,25 @@ Section Obj.
     unfold obj_valid. rewrite E. reflexivity.
   Qed.
 
+  Notation valid_ch := (obj_valid_channel sha256 verify fo addr).
+
+  Theorem resigned_validates_channel o0 before sk ch after :
+    forallb (keeps (o_msg (run o0 before))) after = true ->
+    valid_ch (pub sk) ch (run o0 (before ++ OSign sk ch :: after)) = true.
+  Proof.
+    intro H. unfold obj_valid_channel. apply andb_true_iff. split.
+    - destruct (resigned_digest_current o0 before sk ch after H) as (_ & Hc & _).
+      rewrite Hc. apply bytes_eqb_eq. reflexivity.
+    - apply resigned_validates. exact H.
+  Qed.
+
+  (* whatever key it carries -- the signer's own included -- a channel with another claim hash is refused *)
+  Theorem other_channel_refused o pk ch : ch <> o_ch o -> valid_ch pk ch o = false.
+  Proof.
+    intro H. unfold obj_valid_channel. destruct (bytes_eqb (o_ch o) ch) eqn:E; [|reflexivity].
+    apply bytes_eqb_eq in E. congruence.
+  Qed.
+
   (* re-reading never changes what is signed nor by whom for a current-format object *)
   Theorem reread_preserves_current o pk : o_legacy o = None -> valid pk (step o OReread) = valid pk o.
   Proof.
